@@ -87,13 +87,19 @@ def choice_vectors(rng, m, n):
             {"custom": [{"at": 3, "name": "name", "payload": [1, 7, 1, 0xE7, 0x07, 3, 0x61, 0x62, 0x63]}]},
             {"custom": [{"at": 5, "name": "name", "payload": [0xFF, 0xFF, 0xFF, 0xFF, 0xFF, 0xFF]}, {"at": 99, "name": "name", "payload": []}]},
             {"custom": [{"at": 11, "name": "name", "payload": [0, 2, 1, 0x6D, 1, 4, 1, 0, 1, 0x78, 2, 1, 0]}]},
+            # tool-convention sections are custom sections like any other: feature lists naming features the module does not use
+            # (or explicitly disallows), producers, linking, dylink
+            {"custom": [{"at": 99, "name": "target_features", "payload": [3, 0x2B, 7] + list(b"simd128") + [0x2D, 9] + list(b"tail-call") + [0x2B, 8] + list(b"memory64")}]},
+            {"custom": [{"at": 0, "name": "target_features", "payload": [1, 0x2D, 7] + list(b"simd128")},
+                        {"at": 99, "name": "producers", "payload": [1, 8] + list(b"language") + [1, 1, 0x43, 2] + list(b"99")},
+                        {"at": 4, "name": "dylink.0", "payload": [1, 4, 0, 0, 0, 0]}, {"at": 6, "name": "linking", "payload": [2]}]},
             {"explicitElse": True}, {"explicitElse": True, "padall": 1},
             {"splitLocals": "single"}, {"splitLocals": "pairs"}, {"splitLocals": "empties"}, {"splitLocals": "single", "padall": 1}]
     for _ in range(n):
         pad = {f: rng.choice([0, 0, 1, 2, 4, 9]) for f in rng.sample(fields, max(1, len(fields) // rng.choice([2, 3, 6])))}
         c = {"pad": pad}
         if rng.random() < 0.5:
-            c["custom"] = [{"at": rng.randrange(0, 13), "name": rng.choice(["", "n", "name", "name", "name_", ".debug_str", "target_features"]),
+            c["custom"] = [{"at": rng.randrange(0, 13), "name": rng.choice(["", "n", "name", "name", "name_", ".debug_str", "target_features", "target_features", "producers", "sourceMappingURL"]),
                             "payload": [rng.randrange(256) for _ in range(rng.choice([0, 1, 5, 200]))]} for _ in range(rng.randint(1, 3))]
         if rng.random() < 0.4:
             c["dataForm"] = {str(k): "flag2" for k in range(4) if rng.random() < 0.5}
